@@ -10,6 +10,8 @@ import z3
 Z3_TIMEOUT_MS = int(os.environ.get("PVC_Z3_TIMEOUT_MS", "20000"))
 CVC5_TIMEOUT_S = int(os.environ.get("PVC_CVC5_TIMEOUT_S", "30"))
 CVC5 = "/usr/bin/cvc5"
+# deterministic resource limit per solver call (z3 "rlimit"): verdicts do not depend on machine load
+RLIMIT = int(os.environ.get("PVC_RLIMIT", "40000000"))
 
 
 class Verdict:
@@ -56,10 +58,11 @@ def _outdir():
     return d
 
 
-def prove(assumptions, goal, timeout_ms=None, use_cvc5=True, cross_check=False, tactic=None):
+def prove(assumptions, goal, timeout_ms=None, use_cvc5=True, cross_check=False, tactic=None, rlimit=None, quick=False):
     """returns dict(verdict, backend, seconds, model (z3 ModelRef or None), reason)"""
     timeout_ms = timeout_ms or Z3_TIMEOUT_MS
     t0 = time.time()
+    RL = rlimit or RLIMIT
     if isinstance(goal, bool):
         goal = z3.BoolVal(goal)
     out = {"backend": "z3-" + z3.get_version_string(), "seconds": 0.0, "model": None, "reason": "",
@@ -73,6 +76,7 @@ def prove(assumptions, goal, timeout_ms=None, use_cvc5=True, cross_check=False, 
     if rel is not None and len(rel) < len(flatten(assumptions)):
         s0 = z3.SimpleSolver()
         s0.set("timeout", min(timeout_ms, 4000))
+        s0.set("rlimit", RL)
         for a in rel:
             s0.add(a)
         s0.add(z3.Not(goal))
@@ -85,6 +89,8 @@ def prove(assumptions, goal, timeout_ms=None, use_cvc5=True, cross_check=False, 
               ("abstracted", None, min(timeout_ms, 10000)),
               ("default", z3.Solver, timeout_ms),
               ("smt-core", z3.SimpleSolver, timeout_ms)]
+    if quick:
+        stages = stages[:1]
     for name, mk, tmo in stages:
         if name == "abstracted":
             b = prove_abstracted(assumptions, goal, tmo)
@@ -93,8 +99,11 @@ def prove(assumptions, goal, timeout_ms=None, use_cvc5=True, cross_check=False, 
                 out["backend"] = b
                 break
             continue
+        if quick and name != "smt-core":
+            continue
         s = mk()
         s.set("timeout", tmo)
+        s.set("rlimit", RL)
         for a in assumptions:
             s.add(a)
         s.add(z3.Not(goal))
@@ -328,6 +337,7 @@ def prove_abstracted(assumptions, goal, timeout_ms):
     for mk in (z3.Solver, z3.SimpleSolver):
         s = mk()
         s.set("timeout", timeout_ms)
+        s.set("rlimit", RLIMIT)
         for a in ab_as:
             s.add(a)
         s.add(z3.Not(ab_goal))
